@@ -58,11 +58,19 @@ def gen_cases(rng, tier):
     for nd in (start, end):
       if nd["name"] in ("buck", "bornmayer"):
         nd["p"][1] = abs(nd["p"][1]) + 0.1
+    unit = None
+    if i % 7 == 5:
+      # the same model in another energy unit (Joules: 1.6e-19; or something huge): the spline problem is linear
+      # (buck4) / shifts ln c into B0 (exp), so nothing may depend on the absolute magnitude of the end potentials
+      e = rng.choice([-25, -19, -16, -12, 9, 15])
+      s2, e2 = spec.scale_form(start, e), spec.scale_form(end, e)
+      if s2 is not None and e2 is not None:
+        start, end, unit = s2, e2, e
     node = {"k": "spline", "kind": kind, "s0": ["-inf"], "start": start, "md": rng.choice([">", ">="]), "rd": rd,
             "ma": rng.choice([">", ">="]), "ra": ra, "end": end}
     if rmin is not None:
       node["rmin"] = rmin
-    cases.append({"kind": "spline", "node": node})
+    cases.append({"kind": "spline", "node": node, "unit": unit})
     if i % 6 == 0:
       # neighbours: splines built in ONE process that differ from this one in exactly one of detach / r_min / attach
       import copy
@@ -79,7 +87,12 @@ def gen_cases(rng, tier):
     rd = spec.rfloat(rng, 0.6, 1.8, 2)
     rm = round(rd + spec.rfloat(rng, 0.3, 0.9, 2), 3)
     ra = round(rm + spec.rfloat(rng, 0.3, 1.0, 2), 3)
-    cases.append({"kind": "buck4", "p": [spec.rfloat(rng, 100.0, 9000.0), spec.rfloat(rng, 0.15, 0.5), spec.rfloat(rng, 0.5, 120.0), rd, rm, ra]})
+    A, C = spec.rfloat(rng, 100.0, 9000.0), spec.rfloat(rng, 0.5, 120.0)
+    unit = None
+    if i % 5 == 3:
+      unit = rng.choice([-25, -19, -16, -12, 9, 15])
+      A, C = (A * 10.0 ** unit), (C * 10.0 ** unit)
+    cases.append({"kind": "buck4", "p": [A, spec.rfloat(rng, 0.15, 0.5), C, rd, rm, ra], "unit": unit})
   if tier in ["thorough"]:
     cases.append({"kind": "suite"})   # the repository's own tests with this check's contracts armed
   return cases
@@ -128,6 +141,8 @@ def run_buck4(case, ctx):
   from atsim.potentials import potentialforms as pf
   A, rho, C, rd, rm, ra = case["p"]
   ctx.cls("kind:buck4_equivalence")
+  if case.get("unit") is not None:
+    ctx.cls("energy_unit_scaled:1e%d" % case["unit"])
   ptxt = " ".join(fnum(v) for v in case["p"])
   try:
     f_api = pf.buck4(*case["p"])
@@ -184,6 +199,8 @@ def run_case(case, ctx):
     return run_buck4(case, ctx)
   node = case["node"]
   ctx.cls("kind:" + node["kind"])
+  if case.get("unit") is not None:
+    ctx.cls("energy_unit_scaled:1e%d" % case["unit"])
   M = R.Model()
   rng = random.Random(int(node["rd"] * 1000))
   rd, ra = node["rd"], node["ra"]
